@@ -248,3 +248,125 @@ pub fn num_compact(n: &Num) -> Value {
     let d = bn_json(down);
     json!([u["neg"], u["mag"], d["neg"], d["mag"]])
 }
+
+
+// ------------------------------------------------------------------------------------------
+pub mod procs {
+    use super::*;
+    use std::io::{BufRead, Read, Write};
+    use std::process::{Command, Stdio};
+    use std::sync::atomic::{AtomicUsize, Ordering};
+    use std::sync::{Arc, Mutex};
+    use std::time::{Duration, Instant};
+
+    /// run a command with stdin bytes, a wall-clock limit and an output cap
+    pub fn run_proc(cmd: &mut Command, stdin: &[u8], timeout: Duration, cap: usize) -> (Vec<u8>, Vec<u8>, i64, bool) {
+        let mut ch = cmd.stdin(Stdio::piped()).stdout(Stdio::piped()).stderr(Stdio::piped()).spawn().expect("spawn");
+        let mut si = ch.stdin.take().unwrap();
+        let data = stdin.to_vec();
+        let w = std::thread::spawn(move || {
+            let _ = si.write_all(&data);
+        });
+        let mut so = ch.stdout.take().unwrap();
+        let mut se = ch.stderr.take().unwrap();
+        let t_out = std::thread::spawn(move || {
+            let mut buf = Vec::new();
+            let mut chunk = [0u8; 65536];
+            loop {
+                match so.read(&mut chunk) {
+                    Ok(0) | Err(_) => break,
+                    Ok(k) => {
+                        if buf.len() < cap {
+                            buf.extend_from_slice(&chunk[..k]);
+                        }
+                    }
+                }
+            }
+            buf
+        });
+        let t_err = std::thread::spawn(move || {
+            let mut buf = Vec::new();
+            let mut chunk = [0u8; 65536];
+            loop {
+                match se.read(&mut chunk) {
+                    Ok(0) | Err(_) => break,
+                    Ok(k) => {
+                        if buf.len() < cap {
+                            buf.extend_from_slice(&chunk[..k]);
+                        }
+                    }
+                }
+            }
+            buf
+        });
+        let start = Instant::now();
+        let mut timed_out = false;
+        let code: i64 = loop {
+            match ch.try_wait() {
+                Ok(Some(st)) => {
+                    break match st.code() {
+                        Some(c) => c as i64,
+                        None => {
+                            use std::os::unix::process::ExitStatusExt;
+                            -(st.signal().unwrap_or(0) as i64) - 1000
+                        }
+                    }
+                }
+                Ok(None) => {
+                    if start.elapsed() > timeout {
+                        let _ = ch.kill();
+                        let _ = ch.wait();
+                        timed_out = true;
+                        break -1;
+                    }
+                    std::thread::sleep(Duration::from_micros(300));
+                }
+                Err(_) => break -2,
+            }
+        };
+        let _ = w.join();
+        let o = t_out.join().unwrap_or_default();
+        let e = t_err.join().unwrap_or_default();
+        (o, e, code, timed_out)
+    }
+
+    pub fn lossy_cps(b: &[u8]) -> Vec<u32> {
+        text_cps(&String::from_utf8_lossy(b))
+    }
+
+    pub fn read_cases(path: &str) -> Vec<Value> {
+        std::io::BufReader::new(std::fs::File::open(path).unwrap())
+            .lines()
+            .map(|l| l.unwrap())
+            .filter(|l| !l.trim().is_empty())
+            .map(|l| serde_json::from_str(&l).unwrap())
+            .collect()
+    }
+
+    pub fn par_map(cases: Vec<Value>, jobs: usize, f: impl Fn(usize, &Value) -> Vec<Value> + Send + Sync + 'static) -> Vec<Vec<Value>> {
+        let n = cases.len();
+        let cases = Arc::new(cases);
+        let next = Arc::new(AtomicUsize::new(0));
+        let results: Arc<Mutex<Vec<Option<Vec<Value>>>>> = Arc::new(Mutex::new(vec![None; n]));
+        let f = Arc::new(f);
+        let mut hs = Vec::new();
+        for _ in 0..jobs {
+            let (cases, next, results, f) = (cases.clone(), next.clone(), results.clone(), f.clone());
+            hs.push(std::thread::spawn(move || loop {
+                let i = next.fetch_add(1, Ordering::SeqCst);
+                if i >= cases.len() {
+                    break;
+                }
+                let r = f(i, &cases[i]);
+                results.lock().unwrap()[i] = Some(r);
+            }));
+        }
+        for h in hs {
+            h.join().unwrap();
+        }
+        let mut g = results.lock().unwrap();
+        g.iter_mut().map(|x| x.take().unwrap_or_default()).collect()
+    }
+
+
+}
